@@ -52,7 +52,10 @@ pub fn dump_logs(args: &[String], seed: u64) -> i32 {
     let kmax = if tier == Tier::Thorough { 3 } else { 2 };
         let mut cover_bases: Vec<(&Entry, bool, usize)> = corpus.k0.iter().map(|e| (e, true, kmax)).collect();
     for (gi, e) in corpus.g.iter().enumerate() {
-        if gi >= corpus.extra_from && tier != Tier::Thorough && !kp[gi] && crate::prng::hmix(&[seed, 0xC0FE, gi as u64]) % 8 != 0 {
+        if gi >= corpus.extra_from && tier != Tier::Thorough && !kp[gi] && e.id != "J0" && e.id != "J1" && crate::prng::hmix(&[seed, 0xC0FE, gi as u64]) % 8 != 0 {
+            continue;
+        }
+        if e.id.starts_with('J') && e.id != "J0" && e.id != "J1" {
             continue;
         }
         if kp[gi] || census_g[gi].interesting() {
